@@ -169,8 +169,15 @@ pub fn tokenize(src: &str) -> Option<Vec<Tok>> {
 /// tokens may be written without any separator when one side is one of `{ } ( ) , ;` and no other token is formed
 pub fn separable(l: &Tok, r: &Tok) -> bool {
     // single-character lexical items (X.680 12.37) next to which no white-space is needed
-    let p = |t: &Tok| t.kind == "punct" && matches!(t.text.as_str(), "{" | "}" | "(" | ")" | "," | ";" | ":" | "[" | "]" | "<" | "|" | "^" | "@" | "!");
+    // and the items made of punctuation only: `::=`, `..`, `...`, and the `.` between the parts of a reference
+    let p = |t: &Tok| t.kind == "punct" && matches!(t.text.as_str(), "{" | "}" | "(" | ")" | "," | ";" | ":" | "[" | "]" | "<" | "|" | "^" | "@" | "!" | "::=" | ".." | "..." | ".");
     if !(p(l) || p(r)) {
+        return false;
+    }
+    // a `.` that touches a number reads as part of a real number
+    let digit_end = |t: &Tok| t.text.chars().last().map_or(false, |c| c.is_ascii_digit());
+    let digit_start = |t: &Tok| t.text.chars().next().map_or(false, |c| c.is_ascii_digit());
+    if (l.text == "." && digit_start(r)) || (r.text == "." && digit_end(l)) {
         return false;
     }
     let lt = l.text.as_str();
@@ -245,6 +252,11 @@ pub fn feature_modules() -> Vec<(&'static str, String)> {
         m("param", "P {T} ::= SEQUENCE { v T } A ::= P {INTEGER} Q {INTEGER:n} ::= INTEGER (0..n) B ::= Q {7}"),
         m("selection", "C ::= CHOICE { a INTEGER, b BOOLEAN } A ::= a < C"),
         m("class", "OP ::= CLASS { &id INTEGER UNIQUE, &Type } WITH SYNTAX { ID &id TYPE &Type } op1 OP ::= { ID 1 TYPE BOOLEAN } Ops OP ::= { op1 } A ::= SEQUENCE { id OP.&id ({Ops}), val OP.&Type ({Ops}{@id}) } F ::= OP.&id"),
+        m("param2", "P2 {T, U} ::= SEQUENCE { a T, b U } Ax ::= P2 {INTEGER, BOOLEAN}"),
+        m("object-fields", "OP ::= CLASS { &id INTEGER UNIQUE, &Type } WITH SYNTAX { ID &id TYPE &Type } opa OP ::= { ID 1 TYPE BOOLEAN } Ty ::= SEQUENCE { a opa.&Type }"),
+        m("instance-of", "Ix ::= INSTANCE OF TYPE-IDENTIFIER"),
+        m("constrained-by", "Ax ::= OCTET STRING (CONSTRAINED BY { }) Bx ::= INTEGER (CONSTRAINED BY { Ax })"),
+        ("imports-param", "M DEFINITIONS AUTOMATIC TAGS ::= BEGIN IMPORTS Ext{}, T FROM N; A ::= Ext {INTEGER} B ::= T END N DEFINITIONS AUTOMATIC TAGS ::= BEGIN Ext {X} ::= SEQUENCE { x X } T ::= NULL END".to_string()),
         m("class-hyphenated-field", "MY-CLASS ::= CLASS { &id INTEGER UNIQUE, &My-Type } WITH SYNTAX { &My-Type IDENTIFIED BY &id } Set-x MY-CLASS ::= { { BOOLEAN IDENTIFIED BY 1 } | { INTEGER IDENTIFIED BY 2 } } Tt ::= SEQUENCE { id MY-CLASS.&id ({Set-x}), val MY-CLASS.&My-Type ({Set-x}{@id}) }"),
         m("with-components", "A ::= SEQUENCE { a INTEGER OPTIONAL, b BOOLEAN OPTIONAL } B ::= A (WITH COMPONENTS { a PRESENT, b ABSENT }) L ::= SEQUENCE OF INTEGER M2 ::= L (WITH COMPONENT (0..5))"),
         m("containing", "A ::= OCTET STRING (CONTAINING INTEGER) B ::= BIT STRING (CONTAINING BOOLEAN)"),
